@@ -79,19 +79,19 @@ func checkMembershipDispatch(c *fw.Ctx) {
 		lhs: map[string]string{sigNewM: "newM"},
 		bools: map[string]string{
 			"(**recv.allowerContext.create.roomID == (gmsl/spec.RoomID).String((gmsl.PDU).RoomID(param:event)))": "room",
-			"(*recv.targetID == (gmsl.PDU).SenderID(**recv.allowerContext.createEvent))":                          "targetIsCreator",
-			"(*recv.senderID == *recv.targetID)":                                                                  "self",
-			"(*recv.targetID == *recv.senderID)":                                                                  "self",
+			"(*recv.targetID == (gmsl.PDU).SenderID(**recv.allowerContext.createEvent))":                         "targetIsCreator",
+			"(*recv.senderID == *recv.targetID)":                                                                 "self",
+			"(*recv.targetID == *recv.senderID)":                                                                 "self",
 			"(builtin.len((gmsl.PDU).PrevEventIDs(param:event)) == 1)":                                           "onePrev",
 			"(*(gmsl.PDU).PrevEventIDs(param:event)[0] == **recv.allowerContext.create.eventID)":                 "prevIsCreate",
 		},
 		fixed: map[string]bool{
-			`((gmsl.PDU).Type(param:event) == "m.room.member")`:                                                                       true,
-			"(encoding/json.Unmarshal((gmsl.PDU).Content(param:event),local:*gmsl.membershipContent) == nil)":                        true,
-			"(*local:*gmsl.membershipContent.MXIDMapping == nil)":                                                                     true, // non pseudo-ID path
-			"(dyn(**recv.allowerContext.userIDQuerier)(**recv.allowerContext.roomID,*recv.senderID)#1 == nil)":                        true,
-			"(gmsl/spec.NewUserID(**local:*gmsl.membershipContent.MXIDMapping.UserID,true)#1 == nil)":                                 true,
-			"(phi(nil|nil|gmsl/spec.NewUserID(**local:*gmsl.membershipContent.MXIDMapping.UserID,true)#0) == nil)":                    true, // no mapping: the querier is asked
+			`((gmsl.PDU).Type(param:event) == "m.room.member")`:                                                    true,
+			"(encoding/json.Unmarshal((gmsl.PDU).Content(param:event),local:*gmsl.membershipContent) == nil)":      true,
+			"(*local:*gmsl.membershipContent.MXIDMapping == nil)":                                                  true, // non pseudo-ID path
+			"(dyn(**recv.allowerContext.userIDQuerier)(**recv.allowerContext.roomID,*recv.senderID)#1 == nil)":     true,
+			"(gmsl/spec.NewUserID(**local:*gmsl.membershipContent.MXIDMapping.UserID,true)#1 == nil)":              true,
+			"(phi(nil|nil|gmsl/spec.NewUserID(**local:*gmsl.membershipContent.MXIDMapping.UserID,true)#0) == nil)": true, // no mapping: the querier is asked
 		},
 		match: func(atom string, a asg) (bool, bool) {
 			switch {
@@ -209,8 +209,8 @@ func checkRestricted(c *fw.Ctx) {
 			"(gmsl.SplitID(64,*recv.newMember.AuthorisedVia)#2 == nil)":                       "validID",
 		},
 		fixed: map[string]bool{
-			"(" + member + "#1 == nil)":                              true,
-			"((gmsl.PDU).Membership(" + member + "#0)#1 == nil)":     true,
+			"(" + member + "#1 == nil)":                          true,
+			"((gmsl.PDU).Membership(" + member + "#0)#1 == nil)": true,
 		},
 		match: func(atom string, a asg) (bool, bool) {
 			switch atom {
@@ -387,9 +387,9 @@ func checkLevels(c *fw.Ctx) {
 	if fn := mustFunc(c, rule, "(*allowerContext).userPowerLevel"); fn != nil {
 		vars := []tvar{{"priv", tf}, {"isCreator", tf}, {"noPL", tf}, {"isCreateSender", tf}}
 		ip := &interp{bools: map[string]string{
-			"*recv.privilegedCreators":                 "priv",
-			"slices.Contains(*recv.creators,param:userID)": "isCreator",
-			"(*recv.powerLevelsEvent == nil)":          "noPL",
+			"*recv.privilegedCreators":                                 "priv",
+			"slices.Contains(*recv.creators,param:userID)":             "isCreator",
+			"(*recv.powerLevelsEvent == nil)":                          "noPL",
 			"(param:userID == (gmsl.PDU).SenderID(*recv.createEvent))": "isCreateSender",
 		}}
 		compareTable(c, rule, "effective user power level", fn, 0, vars, ip, func(a asg) string {
